@@ -158,7 +158,19 @@ func TestC07(t *testing.T) {
 			if !strings.HasSuffix(text, "\n") {
 				st.Class("last_command_without_newline")
 			}
-			c.Items = append(c.Items, c07Item{Text: text, Want: p.Skel, Comments: commentSkels(r.Comments)})
+			comments := commentSkels(r.Comments)
+			if rapid.IntRange(0, 4).Draw(rt, "leading_comment_lines") == 0 {
+				// comment lines in front of the command belong to the same call
+				var lead []string
+				for j := rapid.IntRange(1, 2).Draw(rt, "nlead"); j > 0; j-- {
+					ct := rapid.SampledFrom([]string{" c", "", " ! x", " ends in \\", "x"}).Draw(rt, "leadtext")
+					text = rapid.SampledFrom([]string{"", " ", "\t"}).Draw(rt, "leadindent") + "#" + ct + "\n" + text
+					lead = append([]string{"#" + fmt.Sprintf("%q", ct)}, lead...)
+				}
+				comments = append(lead, comments...)
+				st.Class("command_behind_comment_lines")
+			}
+			c.Items = append(c.Items, c07Item{Text: text, Want: p.Skel, Comments: comments})
 		}
 		// every item is a complete command of the grammar: a call that fails
 		// has not consumed "precisely the text of one complete command"
